@@ -1,8 +1,12 @@
 //! C20 — backtests consume their whole dataset in order and do not affect one another.
 //!
 //! Ops (one case = one dataset + strategy parameterisations + several concurrent runs):
-//!   `data k e0 e1 ...`      dataset over `k` instruments; each event `i:p` = trade on instrument `i`
-//!                           at integer price `p`; the event's id is its position in the list
+//!   `data k e0 e1 ...`      dataset over `k` instruments; each event is `i:p` = `MarketStreamEvent::Item`
+//!                           (trade on instrument `i` at integer price `p`; its id is its position in
+//!                           the list) or `R` = `MarketStreamEvent::Reconnecting(exchange)` marker;
+//!                           markers may stand anywhere, also before the first Item (the backtest clock
+//!                           is initialised from the first Item by the real `MarketDataInMemory::new`;
+//!                           a dataset without any Item makes `new` panic: `run` then reports `panic`)
 //!   `strat t:i:s:q ...`     one strategy parameterisation (a plan): after the `t`-th market event
 //!                           (1-based count of market events processed) send a market order on
 //!                           instrument `i`, side `s` (B/S), quantity `q`; `strat -` = passive
@@ -11,8 +15,10 @@
 //!                           `w` workers (`w = 0`: current-thread), then each one alone
 //!
 //! Observations of `run` (per backtest `b`):
-//!   `seen b ids...`         market events processed by b's engine (recording GlobalData), in order
-//!   `inst b j ids...`       the same per instrument (recording InstrumentDataState)
+//!   `seen b ids...`         market stream events processed by b's engine, in order: the id of every Item
+//!                           (recording GlobalData) and `R` for every market disconnect notice (recording
+//!                           OnDisconnectStrategy writing to the same per-engine log)
+//!   `inst b j ids...`       the Items per instrument (recording InstrumentDataState)
 //!   `reqs b t:i:s:q@p ...`  order requests b's strategy issued (with the price it read)
 //!   `own b 1`               b's summary equals a synchronous replay of b's own observed feed through
 //!                           a fresh real Engine (the summary is a function of that engine's feed)
@@ -83,7 +89,10 @@ const EXCHANGE: ExchangeId = ExchangeId::BinanceSpot;
 /// What the engine's `GlobalData` saw, in order.
 #[derive(Debug, Clone, PartialEq, Eq)]
 enum Rec {
+    /// market Item (dataset position)
     M(u32),
+    /// market disconnect notice (`MarketStreamEvent::Reconnecting`), seen by `on_disconnect`
+    R,
     A(String),
 }
 
@@ -93,6 +102,7 @@ struct RecGlobal {
     n_mkt: usize,
     /// raw account events, kept so that the feed can be replayed
     account: Vec<AccountEvent>,
+    acc_notices: usize,
 }
 
 fn event_id(event: &MarketEvent<InstrumentIndex, DataKind>) -> u32 {
@@ -342,7 +352,18 @@ impl ClosePositionsStrategy for PlanStrategy {
 
 impl<Clock, Txs, Risk> OnDisconnectStrategy<Clock, State, Txs, Risk> for PlanStrategy {
     type OnDisconnect = ();
-    fn on_disconnect(_: &mut Engine<Clock, State, Txs, Self, Risk>, _: ExchangeId) {}
+    fn on_disconnect(engine: &mut Engine<Clock, State, Txs, Self, Risk>, exchange: ExchangeId) {
+        // the engine has just marked the link that dropped (engine/mod.rs:263-315): a market notice
+        // leaves market_data Reconnecting; anything else is an account-stream notice
+        let market = engine.state.connectivity.connectivity(&exchange).market_data
+            == barter::engine::state::connectivity::Health::Reconnecting;
+        if market {
+            engine.state.global.log.push(Rec::R);
+        } else {
+            engine.state.global.log.push(Rec::A("acc-reconnecting".into()));
+            engine.state.global.acc_notices += 1;
+        }
+    }
 }
 
 impl<Clock, Txs, Risk> OnTradingDisabled<Clock, State, Txs, Risk> for PlanStrategy {
@@ -508,6 +529,10 @@ fn replay_feed(s: &Setup, sink: &Sink) -> (String, Vec<String>, Vec<String>) {
     for rec in &sink.log {
         let event: EngineEvent<DataKind> = match rec {
             Rec::M(id) => EngineEvent::Market(s.events[*id as usize].clone()),
+            Rec::R => EngineEvent::Market(MarketStreamEvent::Reconnecting(EXCHANGE)),
+            Rec::A(tag) if tag == "acc-reconnecting" => {
+                EngineEvent::Account(AccountStreamEvent::Reconnecting(EXCHANGE))
+            }
             Rec::A(_) => EngineEvent::Account(AccountStreamEvent::Item(
                 acc.next().expect("one raw account event per tag").clone(),
             )),
@@ -532,11 +557,13 @@ fn ids(v: &[u32]) -> String {
     v.iter().map(|x| x.to_string()).collect::<Vec<_>>().join(" ")
 }
 
-fn market_ids(log: &[Rec]) -> Vec<u32> {
+/// the market stream events of a log: item ids and `R` markers, in order
+fn market_ids(log: &[Rec]) -> Vec<String> {
     log.iter()
         .filter_map(|r| match r {
-            Rec::M(i) => Some(*i),
-            _ => None,
+            Rec::M(i) => Some(i.to_string()),
+            Rec::R => Some("R".to_string()),
+            Rec::A(_) => None,
         })
         .collect()
 }
@@ -623,7 +650,10 @@ fn run() {
                         .iter()
                         .enumerate()
                         .map(|(pos, t)| {
-                            let (i, p) = t.split_once(':').expect("i:p");
+                            if t == "R" {
+                                return MarketStreamEvent::Reconnecting(EXCHANGE);
+                            }
+                            let (i, p) = t.split_once(':').expect("i:p or R");
                             let i: usize = i.parse().unwrap();
                             assert!(i < k, "instrument out of range");
                             let p: u32 = p.parse().unwrap();
@@ -665,7 +695,7 @@ fn run() {
                     for b in 0..n {
                         let sink = &conc.sinks[b];
                         let seen = market_ids(&sink.log);
-                        lines.push(format!("seen {b} {}", ids(&seen)));
+                        lines.push(format!("seen {b} {}", seen.join(" ")));
                         for (j, v) in sink.inst.iter().enumerate() {
                             lines.push(format!("inst {b} {j} {}", ids(v)));
                         }
